@@ -28,11 +28,12 @@ KeepNodes(doc, keep) ==
 \*   dset  : [d, name, kind, on]  replace these members of definition d  (d = 0: none)
 \*   app   : nodes appended at the end
 \*   keep  : node indices kept (renumbered), used when keepAll = FALSE
+\*   dapp  : definitions appended at the end (their nodes come in `app`)
 NoSet  == [i |-> 0, f |-> "", v |-> ""]
 NoDSet == [d |-> 0, name |-> "", kind |-> "", on |-> ""]
 Ed(rule, at, variant, nset, dset, app, keepAll, keep) ==
   [rule |-> rule, at |-> at, variant |-> variant, nset |-> nset, dset |-> dset, app |-> app,
-   keepAll |-> keepAll, keep |-> keep]
+   keepAll |-> keepAll, keep |-> keep, dapp |-> <<>>]
 
 Apply(doc, e) ==
   LET d1 == IF e.keepAll THEN doc ELSE KeepNodes(doc, SeqRange(e.keep))
@@ -43,7 +44,7 @@ Apply(doc, e) ==
       d3 == IF e.dset.d = 0 THEN d2
             ELSE [d2 EXCEPT !.defs[e.dset.d].name = e.dset.name, !.defs[e.dset.d].kind = e.dset.kind,
                             !.defs[e.dset.d].on = e.dset.on]
-  IN  [d3 EXCEPT !.nodes = @ \o e.app]
+  IN  [d3 EXCEPT !.nodes = @ \o e.app, !.defs = @ \o e.dapp]
 
 Simple(rule, at, variant) == Ed(rule, at, variant, NoSet, NoDSet, <<>>, TRUE, <<>>)
 SetNode(rule, i, f, v)    == Ed(rule, i, "full", [i |-> i, f |-> f, v |-> v], NoDSet, <<>>, TRUE, <<>>)
@@ -147,6 +148,20 @@ Edits(S, doc, roots) ==
    IN  Ed("subscriptionRootsViaInline", d, "full", NoSet, NoDSet,
           <<InlineNode(d, 0, DefType(doc, roots, d)), FieldNode(d, k, "tick", ""), FieldNode(d, k, "tick", "t2")>>,
           FALSE, SetToSortSeq(keep, <)) :
+      d \in {x \in 1..Len(doc.defs) : doc.defs[x].k = "op" /\ doc.defs[x].kind = "subscription"}}
+  \cup
+  \* 8c. ... and when the second root field of a LATER subscription hides behind a fragment that an EARLIER
+  \*     subscription of the same document has already been counted through (every operation is counted on
+  \*     its own: a visited set shared by the operations would let `Second` pass)
+  {LET nd == Len(doc.defs)
+       on == DefType(doc, roots, d)
+   IN  [Ed("subscriptionRootsAfterAnotherSubscription", d, "full", NoSet, NoDSet,
+           <<FieldNode(nd + 1, 0, "tick", ""),
+             SpreadNode(nd + 2, 0, "SubF"), FieldNode(nd + 2, 0, "tick", "t2"),
+             SpreadNode(nd + 3, 0, "SubF"),
+             SpreadNode(nd + 4, 0, "SubBoth")>>, TRUE, <<>>)
+        EXCEPT !.dapp = <<FragDef("SubF", on), FragDef("SubBoth", on),
+                          OpDef("subscription", "First"), OpDef("subscription", "Second")>>] :
       d \in {x \in 1..Len(doc.defs) : doc.defs[x].k = "op" /\ doc.defs[x].kind = "subscription"}}
   \cup
   \* 9. anonymous operations: `query { .. }` and the bare `{ .. }` shorthand
